@@ -9,8 +9,15 @@ mkdir -p "$SCRATCH"
 cp -r /verif/corpus "$SCRATCH/corpus"
 cp /verif/known-findings.txt "$SCRATCH/known-findings.txt"
 if [ -n "$(git -C /repo status --porcelain)" ]; then echo "refusing: /repo has local modifications or untracked files"; exit 2; fi
-if ! git -C /repo apply "$PATCH"; then echo "patch does not apply"; exit 2; fi
-trap 'git -C /repo checkout -- . ; git -C /repo clean -fdq -- falcon-rust benchmark ; rm -rf "$SCRATCH"' EXIT
+trap 'git -C /repo reset -q --hard HEAD ; git -C /repo clean -fdq -- falcon-rust benchmark ; rm -rf "$SCRATCH"' EXIT
+if ! git -C /repo apply "$PATCH" 2>/dev/null; then
+    # patches written against the tree before the ntru_gen probe lines were added (hook commit 96dce0f):
+    # take math.rs from before that commit (the probes are optional for the harness), then apply
+    git -C /repo checkout b834386 -- falcon-rust/src/math.rs
+    if ! git -C /repo apply "$PATCH"; then echo "patch does not apply"; exit 2; fi
+    git -C /repo reset -q
+    echo "(applied on math.rs without the ntru_gen probe lines)"
+fi
 for id in "$@"; do
     start=$(date +%s)
     VERIF_ROOT="$SCRATCH" /verif/check "$id" "$TIER" > "$SCRATCH/$id.out" 2>&1
